@@ -201,8 +201,12 @@ Definition X1 : reg := 1%N.
 Fixpoint data_values (fuel : nat) (acc : list (wth Z)) : P (list (wth Z)) :=
   match fuel with
   | O => fun _ => OutOfFuel
-  | S f =>
-      let* nx := peek_any in
+  | S f => fun st =>
+      match fst st with
+      | [] => ret (rev acc) st          (* end of file ends the list (fix 'data directive on the last line') *)
+      | (LErrString _ _ _ | LErrUnexpected _) :: _ => ret (rev acc) st   (* so does a lexical error *)
+      | _ =>
+      (let* nx := peek_any in
       match tt nx with
       | TNewline => let* _ := get_any in data_values f acc
       | _ =>
@@ -211,6 +215,7 @@ Fixpoint data_values (fuel : nat) (acc : list (wth Z)) : P (list (wth Z)) :=
           | Some i => let* _ := get_any in data_values f (i :: acc)
           | None => ret (rev acc)
           end
+      end) st
       end
   end.
 
